@@ -485,3 +485,42 @@ theorem update_keeps_secrets (w : World) (hr : Reachable w) (k : Right) (c : Lis
           | cons a b => simp at h1
 
 end CC
+
+namespace CC
+open CC.Look
+
+/-- after a successful `update_msk` the master key holds no right outside `omega` -/
+theorem update_ok_keys (w : World) (k : Right) (hok : (updateMsk w.msk w.msk.structure_.omega w.rng).1 = .ok ())
+    (hk : w.msk.structure_.omega.lookup k = none) : (w.step .update).msk.secrets.lookup k = none := by
+  simp only [World.step]
+  unfold updateMsk at hok ⊢
+  split
+  · rename_i hc; simp [hc] at hok
+  · simp only
+    rcases hu : updateLoop (w.msk.secrets.retain fun r => (w.msk.structure_.omega.lookup r).isSome) w.msk.structure_.omega w.rng with ⟨res, n'⟩
+    cases res with
+    | error e => rfl
+    | ok s =>
+      simp only
+      have hu' : (updateLoop (w.msk.secrets.retain fun r => (w.msk.structure_.omega.lookup r).isSome) w.msk.structure_.omega w.rng).1 = .ok s := by rw [hu]
+      have hnot : k ∉ w.msk.structure_.omega.map (·.1) := lookup_eq_none_iff.1 hk
+      rw [updateLoop_lookup_other _ _ _ _ hu' k hnot, RevMap.lookup_retain, hk]
+      rfl
+
+/-- **a deleted attribute leaves the master key**: once no attribute carries the identifier `i`
+any more, a successful `update_msk` leaves no right that involves `i` -/
+theorem update_removes_dead (w : World) (hr : Reachable w) (i : Nat) (hdead : ¬ w.msk.structure_.live i)
+    (hok : (updateMsk w.msk w.msk.structure_.omega w.rng).1 = .ok ()) (ids : List Nat) (hi : i ∈ ids) :
+    (w.step .update).msk.secrets.lookup (Right.fromPoint ids) = none := by
+  apply update_ok_keys w _ hok
+  cases hl : w.msk.structure_.omega.lookup (Right.fromPoint ids) with
+  | none => rfl
+  | some fl =>
+    exfalso
+    obtain ⟨hyb, ro⟩ := fl
+    have hS := reachable_struct_wf w hr
+    obtain ⟨ids0, e0, l0, _⟩ := omega_spec hS.1 hS.2 (lookup_mem hl)
+    have hperm := (Right.fromPoint_eq_iff _ _).1 e0
+    exact hdead (l0 i (hperm.mem_iff.1 hi)).1
+
+end CC
